@@ -62,7 +62,7 @@ KERNEL['C15'] = {
     'tech': 'symbolic execution of the real Python code with z3 (own executor); version components as unbounded symbolic ints',
 }
 KERNEL['C13'] = {
-    'text': 'system runs of the real scheduler in which one simulator sends one malformed reply at a solver-chosen step ordinal (next step t+delta with delta <= 0 symbolic, non-int next step, None from a time-based simulator, output time t-eps with eps >= 1 symbolic): on every path run() must raise a SimulationError whose text contains the simulator id and no step request may follow the delivery of the malformed reply; all reply orders',
+    'text': 'system runs of the real scheduler in which one simulator sends one malformed reply at a solver-chosen step ordinal (next step t+delta with delta <= 0 symbolic, non-int next step, None from a time-based simulator, output time t-eps with eps >= 1 symbolic): on every path run() must raise an exception (not an assert) whose text contains the simulator id and no step request may follow the delivery of the malformed reply; all reply orders',
     'ref': 'DESIGN.md section 5 C13',
     'note': 'N=2 (thorough 3), K=3, until=3, exactly one malformed reply; bool next steps not demanded to be rejected',
     'tech': SYS_TECH,
